@@ -81,6 +81,8 @@ def main(tier, seed):
             for w in script.split("\n"):
                 key = (w.strip().split(" ") or [""])[0]
                 cmds[key] = cmds.get(key, 0) + 1
+            if unjudged(m):
+                rep.count("skipped-resource-limit"); continue
             if " " not in m:
                 rep.violation("correspondence", {"what": "model driver gave no transcript (%s)" % m, "source": src, "script": script}); continue
             mt, mend = m.split(" ", 1)
